@@ -301,6 +301,21 @@ func CheckC17(e *fw.Env, l *Lab) {
 				PauseAction(w, ctx, "ACTION_SWAP")
 			}
 		}
+		// large pause state: more entries than any default page size (100)
+		if (h+e.Shard)%4 == 1 {
+			for b := 0; b < 2; b++ {
+				var ids []string
+				for k := 0; k < 70; k++ {
+					ids = append(ids, fmt.Sprint(1000+b*70+k))
+				}
+				PauseCrossChains(w, ctx, []string{"PROTOCOL_CCTP", "PROTOCOL_HYPERLANE"}[b], ids)
+			}
+			var names []string
+			for k := 0; k < 90; k++ {
+				names = append(names, fmt.Sprintf("dest-%03d", k))
+			}
+			PauseCrossChains(w, ctx, "PROTOCOL_INTERNAL", names)
+		}
 		History(e, l, ctx, sh, steps, 45, func(step int, trail []HistOp) bool {
 			ok := roundTripAt(e, l, ctx, map[string]any{"history": h, "step": step, "last_ops": trail}, fresh && step > steps/2)
 			if ok {
